@@ -567,3 +567,137 @@ def cv6(chk, prog):
         chk.instance(R, 'capacity of the group matrix is not rows x ceil(nobj/rows)', 'refuted')
         chk.violation(Finding('CV6.fresh-id', rel(f.file), f.name, 'capacity', f.where,
                               'the group matrix is not sized rows x ceil(objects/rows): some object may get no cell'))
+
+
+# ---- CV7: the averaged out-of-sample prediction is divided by the number of predictions that were added -----------------------------
+def _idx_texts(f, n):
+    """index texts of a (possibly nested) subscript  base[..][..]  -> (base text, [index texts])"""
+    idx = []
+    cur = strip(n)
+    while cur.get('kind') == 'ArraySubscriptExpr':
+        idx.append(f.unit.text(kids(cur)[1]).replace(' ', ''))
+        cur = strip(kids(cur)[0])
+    return f.unit.text(cur).replace(' ', ''), idx[::-1]
+
+
+def _enclosing(root, node, kinds):
+    chain = []
+
+    def go(n, path):
+        if n is node:
+            chain.extend(path)
+            return True
+        for c in kids(n):
+            if go(c, path + [n]):
+                return True
+        return False
+    go(root, [])
+    return [x for x in chain if x.get('kind') in kinds]
+
+
+def cv7(chk, prog):
+    R = chk.rule('CV7.mean-divisor', 'the summed out-of-sample predictions of an object are divided by the number of predictions that were added for it: '
+                 'a per-object counter incremented wherever a prediction is added (worker) and accumulated alongside the sums (dispatcher); a fixed '
+                 'iteration count is not that number when the iterations run in batches of nthreads')
+    f = prog.funcs.get('BootstrapRandomGroupsCV')
+    if f is None or f.body is None:
+        chk.broke('BootstrapRandomGroupsCV not found')
+        return
+    divs = [n for n in walk(f.body) if n.get('kind') == 'CompoundAssignOperator' and n.get('opcode') == '/=' and
+            strip(kids(n)[0]).get('kind') == 'ArraySubscriptExpr']
+    if len(divs) != 1:
+        chk.broke('BootstrapRandomGroupsCV: %d averaging divisions found, expected one' % len(divs))
+        return
+    dv = divs[0]
+    sbase, sidx = _idx_texts(f, kids(dv)[0])
+    adds = [n for n in walk(f.body) if n.get('kind') == 'CompoundAssignOperator' and n.get('opcode') == '+=' and
+            strip(kids(n)[0]).get('kind') == 'ArraySubscriptExpr' and _idx_texts(f, kids(n)[0])[0] == sbase]
+    if len(adds) != 1 or len(sidx) != 2:
+        chk.broke('BootstrapRandomGroupsCV: the accumulation into %s was not found as a single += of a cell' % sbase)
+        return
+    add = adds[0]
+    abase, aidx = _idx_texts(f, kids(add)[1])
+    if not abase.endswith('.predicted_y->data') and not abase.endswith('->predicted_y->data'):
+        chk.broke('BootstrapRandomGroupsCV: %s accumulates %s, not the predictions of a worker' % (sbase, abase))
+        return
+    workerfield = abase[:-len('predicted_y->data')]
+    d = strip(kids(dv)[1], casts=True)
+    while d.get('kind') in ('ParenExpr', 'CStyleCastExpr', 'ImplicitCastExpr'):
+        d = strip(kids(d)[-1], casts=True)
+    where = f.unit.where(dv)
+    if d.get('kind') == 'ArraySubscriptExpr':
+        cbase, cidx = _idx_texts(f, d)
+        # dispatcher pairing: counter[i] += worker.predictioncounter[i] in the loops of the sum accumulation
+        cacc = [n for n in walk(f.body) if n.get('kind') == 'CompoundAssignOperator' and n.get('opcode') == '+=' and
+                strip(kids(n)[0]).get('kind') == 'ArraySubscriptExpr' and _idx_texts(f, kids(n)[0])[0] == cbase]
+        ok = cidx == sidx[:1] and len(cacc) == 1
+        if ok:
+            rb, ri = _idx_texts(f, kids(cacc[0])[1])
+            li = _idx_texts(f, kids(cacc[0])[0])[1]
+            loops_c = [id(x) for x in _enclosing(f.body, cacc[0], ('ForStmt',))]
+            loops_s = [id(x) for x in _enclosing(f.body, add, ('ForStmt',))]
+            ok = rb == workerfield + 'predictioncounter->data' and ri == li and li == aidx[:1] and loops_c == loops_s[:len(loops_c)] and len(loops_c) >= 2
+        if not ok:
+            chk.instance(R, '%s BootstrapRandomGroupsCV: the divisor %s[%s] is not accumulated from the workers\' prediction counters alongside the sums' %
+                         (where, cbase, ','.join(cidx)), 'refuted')
+            chk.violation(Finding('CV7.mean-divisor', rel(f.file), f.name, 'counter-pairing', where,
+                                  'BootstrapRandomGroupsCV divides the summed predictions by %s[%s], which is not accumulated from the workers\' prediction counters '
+                                  'for the same object in the loops that accumulate the sums' % (cbase, ','.join(cidx))))
+            return
+        chk.instance(R, '%s BootstrapRandomGroupsCV: sum[i][j] /= counter[i], counter[i] += worker counter[i] next to sum[i][j] += worker prediction[i][j]' % where)
+        # worker pairing
+        workers = set()
+        for n in walk(f.body):
+            if n.get('kind') == 'CallExpr' and callee_name(n) == 'pthread_create':
+                a = call_args(n)
+                for m in walk(a[2]):
+                    if m.get('kind') == 'DeclRefExpr' and m['referencedDecl'].get('name') in prog.funcs:
+                        workers.add(m['referencedDecl'].get('name'))
+        for wn in sorted(workers):
+            g = prog.funcs[wn]
+            padds = [n for n in walk(g.body) if n.get('kind') == 'CompoundAssignOperator' and n.get('opcode') == '+=' and
+                     strip(kids(n)[0]).get('kind') == 'ArraySubscriptExpr' and _idx_texts(g, kids(n)[0])[0].endswith('->predicted_y->data')]
+            if not padds:
+                chk.broke('%s: no accumulation into predicted_y found' % wn)
+                continue
+            for pa in padds:
+                row = _idx_texts(g, kids(pa)[0])[1][0]
+                blocks = _enclosing(g.body, pa, ('CompoundStmt',))
+                found = False
+                for b in blocks[::-1][:3]:
+                    for s in kids(b):
+                        s0 = strip(s)
+                        if s0.get('kind') in ('CompoundAssignOperator', 'UnaryOperator') and strip(kids(s0)[0]).get('kind') == 'ArraySubscriptExpr':
+                            bb, ii = _idx_texts(g, kids(s0)[0])
+                            one = s0.get('kind') == 'UnaryOperator' and s0.get('opcode') == '++' or \
+                                (s0.get('opcode') == '+=' and g.unit.text(kids(s0)[1]).strip() == '1')
+                            if bb.endswith('->predictioncounter->data') and ii == [row] and one:
+                                found = True
+                    if found:
+                        break
+                if found:
+                    chk.instance(R, '%s %s: predictioncounter[%s] += 1 next to the predictions added for object %s' % (g.unit.where(pa), wn, row, row))
+                else:
+                    chk.instance(R, '%s %s: predictions are added for object %s without counting the visit' % (g.unit.where(pa), wn, row), 'refuted')
+                    chk.violation(Finding('CV7.mean-divisor', rel(g.file), wn, 'worker-count', g.unit.where(pa),
+                                          '%s adds predictions for object %s but does not increment predictioncounter[%s] by one in the same block: the mean '
+                                          'computed by the dispatcher divides by the wrong count' % (wn, row, row)))
+        return
+    # a scalar divisor
+    dtxt = f.unit.text(d).replace(' ', '')
+    assigned = any(n.get('kind') in ('BinaryOperator', 'CompoundAssignOperator', 'UnaryOperator') and
+                   (n.get('opcode', '').endswith('=') and n.get('opcode') not in ('==', '!=', '<=', '>=') or n.get('opcode') in ('++', '--')) and
+                   f.unit.text(kids(n)[0]).replace(' ', '') == dtxt for n in walk(f.body))
+    batch = _enclosing(f.body, add, ('ForStmt',))
+    step1 = True
+    if batch:
+        ind = flow.induction(batch[0])
+        step1 = ind is not None and ind['step'].const_value() == 1
+    if not assigned and not step1:
+        chk.instance(R, '%s BootstrapRandomGroupsCV: the summed predictions are divided by %s, but the iterations run in batches' % (where, dtxt), 'refuted')
+        chk.violation(Finding('CV7.mean-divisor', rel(f.file), f.name, 'fixed-divisor', where,
+                              'BootstrapRandomGroupsCV divides the summed predictions by `%s`, a value fixed before the loop, while the loop at %s runs the '
+                              'workers in batches (step %s): the number of predictions added per object is the number of workers actually run, which differs '
+                              'from `%s` whenever the batch size does not divide it' % (dtxt, f.unit.where(batch[0]), f.unit.text(kids(batch[0])[2])[:30] if len(kids(batch[0])) > 2 else '?', dtxt)))
+    else:
+        chk.instance(R, '%s BootstrapRandomGroupsCV: divisor `%s` is not a per-object counter: not decided' % (where, dtxt), 'undecided')
